@@ -481,6 +481,17 @@ def plain_cases():
                     hit = [i for i, k in enumerate((k1, k2)) if isinstance(tg, dict) and k in tg]
                     want = 'case%d' % hit[0] if hit else MatchError
                 cases.append(('switch-constant-keys-%s-%r-%r-on-%r' % (mode, k1, k2, tg), spec, tg, want))
+    # the previous chain step left an argument evaluation unfinished (a T subscript after a wildcard that fails for ONE child is dropped
+    # silently): the next step is still read in the mode of the chaining spec
+    rows = {'rows': [{'k': 'a', 'a': 1}, {}, {'k': 'a', 'a': 3}]}
+    star = T['rows'].__star__()[T['k']]
+    for mk_chain, cname in ((lambda *st: tuple(st), 'tuple'), (lambda *st: Pipe(*st), 'pipe')):
+        cases.append(('after-partly-failed-star-%s-str' % cname, mk_chain(star, '0'), rows, 1))
+        cases.append(('after-partly-failed-star-%s-tuple' % cname, mk_chain(star, ('1',)), rows, 3))
+        cases.append(('after-partly-failed-star-%s-dict' % cname, mk_chain(star, {'first': '0', 'both': [T]}), rows, {'first': 1, 'both': [1, 3]}))
+        cases.append(('after-partly-failed-star-%s-list' % cname, mk_chain(star, [T]), rows, [1, 3]))
+    cases.append(('after-partly-failed-star-in-fill', Fill(Pipe(star, (len, 'x'))), rows, (2, 'x')))
+    cases.append(('after-failed-coalesce-arg', (Coalesce(T['rows'][T['nokey']], T['rows']), '0.k'), rows, 'a'))
     cases.append(('and-or-siblings', And(Fill(T), 'a'), t, 1))
     cases.append(('or-siblings', Or(Match(int), 'a'), t, 1))
     return cases
@@ -617,7 +628,8 @@ def reach_ids(v, out=None):
 
 
 POSITIONS = ['fill', 'coalesce-default', 'call-arg', 'call-kwarg', 't-call-arg', 's-binding', 'assign-value',
-             'match-default', 'switch-default', 'and-default', 'or-default', 'check-default', 'invoke-spec-arg']
+             'match-default', 'switch-default', 'and-default', 'or-default', 'check-default', 'invoke-spec-arg',
+             'fill>coalesce-default', 'fill>call-arg', 'fill>call-kwarg', 'fill>s-binding', 'fill>t-call-arg', 'match>call-arg']
 
 
 def eval_in_position(position, shape_spec):
@@ -648,6 +660,19 @@ def eval_in_position(position, shape_spec):
         return glom(t, Or(Match(int), Match(str), default=shape_spec))
     if position == 'check-default':
         return glom(t, Check(type=int, default=shape_spec))
+    # the same argument positions directly below a Fill wrapper: argument mode is argument mode, whatever mode encloses it
+    if position == 'fill>coalesce-default':
+        return glom(t, Fill(Coalesce(T['zz'], default=shape_spec)))
+    if position == 'fill>call-arg':
+        return glom(t, Fill(Call(lambda x: x, args=(shape_spec,))))
+    if position == 'fill>call-kwarg':
+        return glom(t, Fill([Call(lambda x=None: x, kwargs={'x': shape_spec})]))[0]
+    if position == 'fill>s-binding':
+        return glom(t, Fill(Pipe(S(v=shape_spec), S['v'])))
+    if position == 'fill>t-call-arg':
+        return glom(t, Fill({'r': T['f'](shape_spec)}))['r'][0][0]
+    if position == 'match>call-arg':
+        return glom(t, Match(Call(lambda x: x, args=(shape_spec,))))
     if position == 'invoke-spec-arg':
         return glom(t, Invoke(lambda x: x).specs(Fill(shape_spec)))
     raise AssertionError(position)
